@@ -112,9 +112,18 @@ func calcOutflow(timestep int, inflow, lateral, bias, prevQi, prevOutflow, prevS
 	// totalInflow := inflow + lateral
 	initialFluxMax := (math.Max(0.0, prevStorage) / duration) + inflow // inflow + lateral
 
+	// Water in the reach at the end of the step if nothing flows out
+	waterHeld := math.Max((prevStorage + (inflow+lateral-math.Min(initialFluxMax, area*netEvapRate))*duration), 0.0)
+
 	evaluateRouting := func(q float64) (massBalance, outflow, SIndex float64) {
-		return runRouting(q, inflow, lateral, initialFluxMax, prevStorage, area, netEvapRate, deadStorage, duration,
+		massBalance, outflow, SIndex = runRouting(q, inflow, lateral, initialFluxMax, prevStorage, area, netEvapRate, deadStorage, duration,
 			bias, routingPower, routingConstant, Qlimit, Klimit, Koffset)
+		if outflow <= 0.0 && SIndex > waterHeld {
+			// Nothing flows out, so the reach cannot hold more than it received
+			// (the index storage can exceed that when the search stops early)
+			SIndex = waterHeld
+		}
+		return
 	}
 	evaluateRoutingMassBalance := func(q float64) float64 {
 		delta, _, _ := evaluateRouting(q)
@@ -149,8 +158,6 @@ func calcOutflow(timestep int, inflow, lateral, bias, prevQi, prevOutflow, prevS
 		// Qindexmin is not small enough with zero outflow, so lets call it zero outflow
 		qi = minQI
 		outflow = 0.0
-		// Not enough water to reach the index storage: the reach holds what it received
-		storage = math.Max((prevStorage + (inflow+lateral-math.Min(initialFluxMax, area*netEvapRate))*duration), 0.0)
 		// fmt.Printf("calcOutflow-2, outflow=0, storage=%f\n", storage)
 		return
 	}
